@@ -248,6 +248,11 @@ _CODES = {}
 @functools.lru_cache(maxsize=None)
 def wells_of(n):
     return [str(i) for i in range(n)]
+@functools.lru_cache(maxsize=None)
+def grid(rows):
+    if not isinstance(rows, int):
+        raise ValueError(rows)
+    return rows * 2
 def code(rows, cols, selected):
     k = bytes(selected)
     if k in _CODES:
@@ -308,6 +313,19 @@ def memo_findings(tree_functions) -> List[Tuple[object, ast.AST, str, Optional[b
                         verdicts.append(True if any(v is True for v in vs) else (False if all(v is False for v in vs) else None))
                     else:
                         verdicts.append(_mutable_value(r))
+                # the cache looks its key up by == / hash: 2.0 finds the entry of 2, True the entry of 1 - a type test on a
+                # parameter that guards a raise is skipped for every argument that equals one already seen (typed=True keeps them apart)
+                typed = isinstance(d, ast.Call) and any(k.arg == "typed" and isinstance(k.value, ast.Constant) and k.value.value is True for k in d.keywords)
+                fparams = {a.arg for a in fdef.args.posonlyargs + fdef.args.args + fdef.args.kwonlyargs}
+                if not typed:
+                    for s_ in own_walk(fdef):
+                        if isinstance(s_, ast.If) and any(isinstance(b, ast.Raise) for b in s_.body):
+                            tt = [c for c in ast.walk(s_.test) if isinstance(c, ast.Call) and call_fname(c) in ("isinstance", "type") and c.args
+                                  and isinstance(c.args[0], ast.Name) and c.args[0].id in fparams]
+                            if tt:
+                                out.append((f, d, f"`@{_decorator_name(d)}` on a function that refuses arguments by their type (`{ast.unparse(tt[0])[:40]}`): the cache finds its entries "
+                                            f"by == / hash, so once `{tt[0].args[0].id}` = 2 was accepted, 2.0 (or True for 1) returns the stored result and the type check never runs", False))
+                                break
                 if any(v is True for v in verdicts):
                     out.append((f, d, f"`@{_decorator_name(d)}` on a function that builds a list/dict/array: every call with equal arguments hands out the *same* mutable object, "
                                 "so a caller that edits its result changes what all later callers get", False))
@@ -372,7 +390,7 @@ def memo_rule(ctx, rule: str, module_suffixes: Sequence[str]) -> None:
     for f, node, msg, verdict in memo_findings(funcs):
         n += 1
         ctx.rep.touch(f)
-        tag = "key" if "identifies" in msg else "params" if "does not contain" in msg else "object"
+        tag = "key" if "identifies" in msg else "params" if "does not contain" in msg else "typecheck" if "by their type" in msg else "object"
         arg = msg.split("identifies `")[1].split("`")[0] if "identifies `" in msg else ""
         if verdict is False:
             ctx.rep.refuted(rule, f"{f.qualname}/cache[{tag}{':' + arg if arg else ''}]", msg, where=f.where(node))
@@ -381,7 +399,7 @@ def memo_rule(ctx, rule: str, module_suffixes: Sequence[str]) -> None:
     fx = ast.parse(_MEMO_FIXTURE)
     fx_funcs = [(None, s) for s in fx.body if isinstance(s, ast.FunctionDef)]
     hits = memo_findings(fx_funcs)
-    if len([h for h in hits if h[3] is False]) != 2:
+    if len([h for h in hits if h[3] is False]) != 3:
         ctx.rep.inconclusive(rule, "fixture/memo", "embedded positive fixture (cached mutable result + incomplete memo key) was not detected: rule is broken")
     elif n == 0:
         ctx.rep.holds(rule, "no-behaviour-changing-cache", f"{len(funcs)} functions in {list(module_suffixes)}: no cache decorator on a builder of mutable results, no memo table with an incomplete key (fixture detected)")
